@@ -293,6 +293,164 @@ impl Check for SweepCheck {
     }
 }
 
+/// Scripted cases: a builder turns the case seed into a configuration and a fixed step list.
+pub type ScriptFn = fn(&mut Rng, u64, Tier) -> (CaseCfg, Vec<Step>);
+
+pub fn run_script(cfg: &CaseCfg, steps: Vec<Step>, seed: u64) -> (RunLog, crate::world::Shared) {
+    let n = steps.len();
+    let mut d = Script::new(steps);
+    run_case(cfg, seed, &mut d, n + 4)
+}
+
+/// Either generated (profile) or scripted workloads feeding one monitor.
+pub enum Source {
+    Gen(ProfileFn),
+    Script(ScriptFn),
+}
+
+pub struct MixCheck {
+    pub id: &'static str,
+    pub level: &'static str,
+    pub rule: &'static str,
+    pub assumptions: Vec<&'static str>,
+    pub workloads: Vec<(&'static str, u64, u64, Source)>,
+    pub monitor: MonitorFn,
+    pub max_steps: usize,
+    pub epilogue_polls: usize,
+    pub min_nt: (usize, usize),
+    pub required: Vec<&'static str>,
+    pub exhaustive: bool,
+}
+
+impl Check for MixCheck {
+    fn id(&self) -> &'static str {
+        self.id
+    }
+    fn level(&self) -> &'static str {
+        self.level
+    }
+    fn rule(&self) -> String {
+        self.rule.to_string()
+    }
+    fn assumptions(&self) -> Vec<String> {
+        self.assumptions.iter().map(|s| s.to_string()).collect()
+    }
+    fn workloads(&self) -> Vec<Workload> {
+        self.workloads.iter().map(|(n, q, t, _)| Workload { name: n, quick: *q, thorough: *t }).collect()
+    }
+    fn min_nontrivial(&self, tier: Tier) -> usize {
+        if tier == Tier::Quick { self.min_nt.0 } else { self.min_nt.1 }
+    }
+    fn required_counters(&self) -> Vec<&'static str> {
+        self.required.clone()
+    }
+    fn exhaustive(&self) -> bool {
+        self.exhaustive
+    }
+    fn run(&self, workload: usize, seed: u64, index: u64, tier: Tier, verbose: bool) -> CaseOut {
+        let mut rng = Rng::new(seed);
+        let (log, world) = match &self.workloads[workload].3 {
+            Source::Gen(pf) => {
+                let profile = pf(&mut rng);
+                if self.epilogue_polls > 0 {
+                    run_generated_epilogue(profile, &mut rng, seed, self.max_steps, self.epilogue_polls)
+                } else {
+                    run_generated(profile, &mut rng, seed, self.max_steps)
+                }
+            }
+            Source::Script(sf) => {
+                let (cfg, steps) = sf(&mut rng, index, tier);
+                run_script(&cfg, steps, seed)
+            }
+        };
+        let w = world.borrow();
+        let t = Trace::new(&log, &w);
+        let mut out = CaseOut::default();
+        let nt = (self.monitor)(&t, &mut out);
+        if w.watchdog_tripped {
+            out.count("watchdog_truncated_runs", 1);
+        }
+        finish_case(self.id, &log, &w, &mut out, nt, verbose);
+        out
+    }
+}
+
+pub fn pub1(topic: &str, tag: u32, len: usize) -> Step {
+    Step::Publish(PubSpec { topic: topic.into(), payload: PayloadSpec::Fill { len, tag, ascii: false }, qos: 1, retain: false, props: vec![], correlate: None, cancel_at: None })
+}
+pub fn pubq(qos: u8, topic: &str, tag: u32, len: usize) -> Step {
+    Step::Publish(PubSpec { topic: topic.into(), payload: PayloadSpec::Fill { len, tag, ascii: false }, qos, retain: false, props: vec![], correlate: None, cancel_at: None })
+}
+pub fn poll0() -> Step {
+    Step::Poll { max_wait: 0, cancel_at: None }
+}
+pub fn connect_with(sp: SpMode, acks: AckMode, props: Vec<crate::refcodec::Prop>) -> Step {
+    Step::Connect(ConnectSpec {
+        policy: IoPolicy::default(),
+        faults: vec![],
+        connack: ConnackSpec::Normal { sp, reason: 0, props },
+        broker: BrokerPolicy { acks, ping: AckMode::Immediate, fail_pct: 0, longform_pct: 0 },
+        cancel_at: None,
+    })
+}
+
+/// C07 workload: long-lived operations whose identifiers sit right behind the 65535 -> 1 wrap.
+fn wrap_script(r: &mut Rng, _index: u64, _tier: Tier) -> (CaseCfg, Vec<Step>) {
+    let cfg = CaseCfg { rx: 128, tx: 2048, keepalive: 0, ..CaseCfg::default() };
+    let mut s = vec![connect_with(SpMode::Force(false), AckMode::Hold, vec![]), Step::DropConn];
+    // long-lived requests get the identifiers `base`, `base+1`, ...
+    let base: u16 = *r.pick(&[1u16, 1, 2, 5, 65535, 65534]);
+    s.push(Step::SetNextPid(base));
+    s.push(connect_with(SpMode::Force(true), AckMode::Hold, vec![]));
+    let n_long = r.range(1, 3);
+    let mut tag = 0;
+    for _ in 0..n_long {
+        tag += 1;
+        s.push(match r.below(4) {
+            0 => Step::Subscribe(SubSpec { filters: vec![FilterSpec { filter: "w/#".into(), max_qos: 1, no_local: false, rap: false, rh: 0 }], props: vec![], cancel_at: None }),
+            1 => Step::Unsubscribe(UnsubSpec { filters: vec!["w".into()], props: vec![], cancel_at: None }),
+            2 => pubq(2, "long", tag, 5),
+            _ => pub1("long", tag, 5),
+        });
+    }
+    // optionally move a QoS 2 exchange into the release phase (PUBREC released, PUBCOMP withheld)
+    s.push(Step::DropConn);
+    // position the counter shortly before the wrap, either directly or by really burning identifiers
+    let before: u16 = 65535 - r.below(4) as u16;
+    let burn = r.chance(1, 3);
+    if !burn {
+        s.push(Step::SetNextPid(before));
+    }
+    s.push(connect_with(SpMode::Force(true), AckMode::Hold, vec![]));
+    s.push(poll0());
+    if burn {
+        let cur = base as usize + n_long;
+        let n = (before as usize + 65535 - cur) % 65535;
+        s.push(Step::BurnIds(n));
+    }
+    // short-lived publishes across the wrap: each one is acknowledged at once (newest held ack first)
+    for _ in 0..r.range(6, 12) {
+        tag += 1;
+        s.push(match r.below(5) {
+            0 => pubq(2, "short", tag, 3),
+            1 => Step::Subscribe(SubSpec { filters: vec![FilterSpec { filter: "s".into(), max_qos: 0, no_local: false, rap: false, rh: 0 }], props: vec![], cancel_at: None }),
+            _ => pub1("short", tag, 3),
+        });
+        s.push(Step::Broker(BrokerAct::Release { n: 1, order: Order::Lifo }));
+        s.push(poll0());
+        s.push(poll0());
+        if r.chance(1, 4) {
+            // identifiers burnt by refused requests
+            s.push(Step::BurnIds(r.range(1, 3)));
+        }
+    }
+    s.push(Step::Broker(BrokerAct::Release { n: 99, order: Order::Fifo }));
+    for _ in 0..12 {
+        s.push(poll0());
+    }
+    (cfg, s)
+}
+
 fn general(_r: &mut Rng) -> Profile {
     Profile::default()
 }
@@ -537,11 +695,19 @@ pub fn all() -> Vec<Box<dyn Check>> {
         COMMON_ASSUME.to_vec(),
         vec![("window-heavy", 4000, 400_000, window_heavy as ProfileFn), ("general", 2000, 200_000, general)],
         m::c06::check, 80, 0, (200, 2000), vec!["not_ready_refusals", "resumes_with_inflight", "window_filled"]),
-    gen_check!("C07", "exploration",
-        "every accepted PUBLISH(QoS>0)/SUBSCRIBE/UNSUBSCRIBE gets an identifier that is non-zero and not used by any request still awaiting its final acknowledgement (reference in-use set rebuilt from consumed acks).",
-        COMMON_ASSUME.to_vec(),
-        vec![("replay-heavy", 3000, 300_000, replay_heavy as ProfileFn), ("general", 3000, 300_000, general)],
-        m::c07::check, 70, 0, (200, 2000), vec!["allocations_with_ids_in_use"]),
+    Box::new(MixCheck {
+        id: "C07",
+        level: "exploration",
+        rule: "every accepted PUBLISH(QoS>0)/SUBSCRIBE/UNSUBSCRIBE must get an identifier that is non-zero and not used by any request still awaiting its final acknowledgement (reference in-use set rebuilt from consumed acks). Workloads: scripted wrap histories (1-3 long-lived requests whose acknowledgement is withheld, the 16-bit counter brought to 65532..65535 either through the verif setter or by really burning up to 65535 identifiers through refused publishes, then 6-12 further allocations across the wrap with identifiers burnt in between) and random histories. Non-trivial iff an allocation happened next to the wrap point (counter < 8 or > 65000) while at least one identifier was in use.",
+        assumptions: COMMON_ASSUME.to_vec(),
+        workloads: vec![("wrap", 1500, 150_000, Source::Script(wrap_script)), ("replay-heavy", 2000, 200_000, Source::Gen(replay_heavy)), ("general", 2000, 200_000, Source::Gen(general))],
+        monitor: m::c07::check,
+        max_steps: 70,
+        epilogue_polls: 0,
+        min_nt: (200, 2000),
+        required: vec!["allocations_with_ids_in_use", "wraps_observed"],
+        exhaustive: false,
+    }),
     Box::new(SweepCheck {
         id: "C11",
         level: "fault_enumeration",
